@@ -7,6 +7,7 @@
 package main
 
 import (
+	"runtime"
 	"sync"
 	"bufio"
 	"encoding/hex"
@@ -445,6 +446,9 @@ func genShared(r *gen.Rand, n int) {
 					if v := b.NextDelayMillis(atts[w]); v != first && !seen[w] {
 						bad[w], seen[w] = v, true
 					}
+					if j%97 == 0 {
+						runtime.Gosched() // keeps the callers interleaved on a loaded machine
+					}
 				}
 				if !seen[w] {
 					bad[w] = first
@@ -876,7 +880,7 @@ func main() {
 			genCtors(r, *n)
 		case "delay":
 			genDelay(r, *n)
-			genShared(r, 12)
+			genShared(r, 24)
 		case "spec":
 			genSpec(r, *n)
 			genBuilderSeq(r, *n/2)
